@@ -90,8 +90,48 @@ def prim1d(ctx, center, scale):
     return {"prim": "interval", "var": "x", "lo": float(lo), "hi": float(hi)}
 
 
+def _rot3(rng):
+    q = rng.normal(size=4)
+    q /= np.linalg.norm(q)
+    a, b, c, d = q
+    return np.array([[a * a + b * b - c * c - d * d, 2 * (b * c - a * d), 2 * (b * d + a * c)],
+                     [2 * (b * c + a * d), a * a - b * b + c * c - d * d, 2 * (c * d - a * b)],
+                     [2 * (b * d - a * c), 2 * (c * d + a * b), a * a - b * b - c * c + d * d]])
+
+
+def polyhedron(rng, center, scale):
+    """convex polyhedron (box / tetrahedron / prism / octahedron), randomly rotated, faces in random winding"""
+    kind = str(rng.choice(["box", "tetra", "prism", "octa"]))
+    if kind == "box":
+        w = rng.uniform(0.8, 1.8, 3)
+        V = np.array([[0, 0, 0], [1, 0, 0], [1, 1, 0], [0, 1, 0], [0, 0, 1], [1, 0, 1], [1, 1, 1], [0, 1, 1]], float) * w - w / 2
+        F = [[0, 2, 1], [0, 3, 2], [4, 5, 6], [4, 6, 7], [0, 1, 5], [0, 5, 4], [1, 2, 6], [1, 6, 5], [2, 3, 7], [2, 7, 6], [3, 0, 4], [3, 4, 7]]
+    elif kind == "tetra":
+        V = np.array([[1, 1, 1], [1, -1, -1], [-1, 1, -1], [-1, -1, 1]], float) * rng.uniform(0.7, 1.2)
+        F = [[0, 1, 2], [0, 3, 1], [0, 2, 3], [1, 3, 2]]
+    elif kind == "prism":
+        h = rng.uniform(0.8, 1.8)
+        T = np.array([[0, 0], [1.6, 0], [0.5, 1.3]]) - np.array([0.7, 0.43])
+        V = np.array([[x, y, -h / 2] for x, y in T] + [[x, y, h / 2] for x, y in T])
+        F = [[0, 2, 1], [3, 4, 5], [0, 1, 4], [0, 4, 3], [1, 2, 5], [1, 5, 4], [2, 0, 3], [2, 3, 5]]
+    else:
+        r = rng.uniform(0.8, 1.4, 3)
+        V = np.array([[r[0], 0, 0], [-r[0], 0, 0], [0, r[1], 0], [0, -r[1], 0], [0, 0, r[2]], [0, 0, -r[2]]])
+        F = [[0, 2, 4], [2, 1, 4], [1, 3, 4], [3, 0, 4], [2, 0, 5], [1, 2, 5], [3, 1, 5], [0, 3, 5]]
+    V = (V * scale) @ _rot3(rng).T + np.asarray(center, float)
+    F = np.asarray(F, int)
+    if rng.random() < 0.5:
+        F = F[:, ::-1]           # the whole mesh wound the other way round
+    spec = {"prim": "polyhedron", "var": "x", "vertices": [[float(x) for x in v] for v in V], "faces": [[int(i) for i in f] for f in F]}
+    if rng.random() < 0.4:
+        spec["via_file"] = True
+    return spec
+
+
 def prim3d(ctx, center, scale):
     rng = ctx.rng
+    if not ctx.dep and rng.random() < 0.3:
+        return polyhedron(rng, center, scale)
     c = np.asarray(center, float) + rng.uniform(-.3, .3, 3) * scale
     return {"prim": "sphere", "var": "x", "center": ctx.pos(c), "radius": ctx.size(scale * rng.uniform(0.5, 1.1))}
 
